@@ -59,6 +59,110 @@ def trusted_scan(text):
     return found
 
 
+def probe_unit(uname, tag=""):
+    """Reachability probes (thorough tier): a copy of every contracted function with `if <arbitrary> { assert(false); }`
+    at its entry and after every statement.  Every probe must FAIL; a probe that verifies marks a program point the
+    verifier considers unreachable — contradictory assumed contracts in front of it (vacuous proofs behind it) or
+    genuinely dead code (listed in contracts/dead_points.json)."""
+    t0 = time.time()
+    tpl = os.path.join(CONTRACTS, uname.lower() + ".vx.rs")
+    out = {"unit": uname.upper(), "ran": False, "probes": 0, "unreachable": [], "skipped_functions": [], "note": None}
+    try:
+        punit = gen.expand(tpl, REPO, vacuity="probe")
+    except gen.GenError as e:
+        out["note"] = "extraction failed: %s" % e
+        return out
+    crate = uname.lower() + tag + "_probe"
+    punit.gen_path = os.path.join(BUILD, crate + ".rs")
+    with open(punit.gen_path, "w") as f:
+        f.write(punit.text())
+    res = verus.run_verus(punit.gen_path, ["--multiple-errors", "2000", "--rlimit", str(punit.rlimit)], timeout=3000)
+    vs = verus.summarize(res)
+    out["cmd"] = res["cmd"]
+    if vs["tool_error"]:
+        out["note"] = "probe run failed: " + vs["tool_error"]
+        return out
+    hit, rlimit_fns = set(), set()
+    here = os.path.basename(punit.gen_path)
+    for d in res["diags"]:
+        if d.get("level") != "error":
+            continue
+        msg = d.get("message", "")
+        for sp in d.get("spans", []):
+            if os.path.basename(sp["file_name"]) != here:
+                continue
+            o = punit.locate(sp["byte_start"])
+            if o.get("kind") == "probe" and sp.get("is_primary") and "assertion failed" in msg:
+                hit.add(o["probe"])
+            if re.search(r"rlimit|Resource limit|timed? ?out", msg) and o.get("fn"):
+                rlimit_fns.add(o["fn"])
+    dead = {}
+    dp = os.path.join(CONTRACTS, "dead_points.json")
+    if os.path.exists(dp):
+        with open(dp) as f:
+            dead = json.load(f)
+    allowed = {(x["fn"], x["text"]) for x in dead.get(uname.upper(), [])}
+    out["ran"], out["probes"] = True, len(punit.probes)
+    for pr in punit.probes:
+        if pr["id"] in hit:
+            continue
+        if pr["fn"] in rlimit_fns:
+            if pr["fn"] not in out["skipped_functions"]:
+                out["skipped_functions"].append(pr["fn"])
+            continue
+        # the source line the probe follows
+        try:
+            with open(os.path.join(REPO, pr["file"])) as f:
+                text = f.read().splitlines()[pr["line"] - 1].strip()
+        except Exception:
+            text = ""
+        pr2 = dict(pr, text=text)
+        if (pr["fn"], text) in allowed:
+            pr2["allowed"] = True
+        out["unreachable"].append(pr2)
+    out["wall_s"] = round(time.time() - t0, 2)
+    return out
+
+
+def sat_unit(uname, tag=""):
+    """Satisfiability probes for the ASSUMED contracts of a unit (see vxlib/satprobe.py): every probe must fail."""
+    from . import satprobe
+    t0 = time.time()
+    tpl = os.path.join(CONTRACTS, uname.lower() + ".vx.rs")
+    out = {"unit": uname.upper(), "ran": False, "probes": 0, "skipped": [], "unsatisfiable": [], "note": None}
+    try:
+        unit = gen.expand(tpl, REPO)
+    except gen.GenError as e:
+        out["note"] = "extraction failed: %s" % e
+        return out
+    text = unit.text()
+    ptxt, probes, skipped = satprobe.generate(text)
+    k = text.rfind("} // verus!")
+    if k < 0:
+        out["note"] = "no `} // verus!` line in the template"
+        return out
+    crate = uname.lower() + tag + "_sat"
+    path = os.path.join(BUILD, crate + ".rs")
+    with open(path, "w") as f:
+        f.write(text[:k] + "\n// ---- satisfiability probes of the assumed contracts (each must FAIL) ----\n" + ptxt + text[k:])
+    res = verus.run_verus(path, ["--multiple-errors", "1", "--rlimit", str(unit.rlimit)], timeout=1800)
+    vs = verus.summarize(res)
+    out["cmd"] = res["cmd"]
+    out["skipped"] = skipped
+    if vs["tool_error"]:
+        msgs = [d.get("rendered", "")[:600] for d in res["diags"] if d.get("level") == "error"][:3]
+        out["note"] = "probe file rejected: " + vs["tool_error"] + " | " + " | ".join(msgs)
+        return out
+    ok = {f["function"].split("::")[-1] for f in vs["functions"] if f["success"]}
+    seen = {f["function"].split("::")[-1] for f in vs["functions"]}
+    out["ran"], out["probes"] = True, len(probes)
+    for pr in probes:
+        if pr["probe"] in ok or pr["probe"] not in seen:
+            out["unsatisfiable"].append(dict(pr, reported=pr["probe"] in seen))
+    out["wall_s"] = round(time.time() - t0, 2)
+    return out
+
+
 def verify_unit(uname, extra=(), want_vac=True, tag=""):
     """Expand unit from REPO's working tree and run Verus (main + vacuity)."""
     t0 = time.time()
@@ -201,9 +305,9 @@ def cmd_unit(args):
     s = u["summary"]
     print("unit %s: verified=%d errors=%d ok=%s tool_error=%s smt=%dms wall=%.1fs" % (
         u["unit"], s["verified"], s["errors"], s["ok"], s["tool_error"], s["smt_ms"], u["wall_s"]))
-    if s["tool_error"] or "-v" in args:
-        for d in verus.run_verus.__globals__["json"].loads("[]"):
-            pass
+    for fq, msgs in (u.get("hints_lost") or {}).items():
+        for m in msgs:
+            print("HINT-LOST %s: %s" % (fq, m))
     for f in u["failures"]:
         print("FAIL  %-60s %s  [%s]" % (obligation_name(u, f), f["message"], ",".join(f.get("props", []))))
         print(f["rendered"])
@@ -214,6 +318,18 @@ def cmd_unit(args):
         print(u["raw_err"][-3000:])
     if "--vac" in args:
         print("vacuity:", u["vacuity"])
+    if "--sat" in args:
+        sr = sat_unit(uname)
+        print("sat probes: ran=%s n=%d skipped=%d wall=%ss note=%s" % (sr["ran"], sr["probes"], len(sr["skipped"]), sr.get("wall_s"), sr["note"]))
+        for x in sr["unsatisfiable"]:
+            print("  UNSATISFIABLE assumed contract: %s (in %s)%s" % (x["fn"], x["in"], "" if x["reported"] else " [not reported by verus]"))
+        for x in sr["skipped"]:
+            print("  skipped: %s (in %s): %s" % (x["fn"], x["in"], x["why"]))
+    if "--probes" in args:
+        pr = probe_unit(uname)
+        print("probes: ran=%s n=%d wall=%ss note=%s skipped=%s" % (pr["ran"], pr["probes"], pr.get("wall_s"), pr["note"], pr["skipped_functions"]))
+        for x in pr["unreachable"]:
+            print("  UNREACHABLE%s %s  %s:%d  after `%s`" % (" (listed as dead code)" if x.get("allowed") else "", x["fn"], x["file"], x["line"], x["text"]))
     for f in s["functions"]:
         if not f["success"]:
             print("  failed fn:", f["function"])
